@@ -229,8 +229,10 @@ def scan_placeholders(sql, backend):
         c = s[i]
         if c in (0x27, 0x22, 0x60):
             j = i + 1
+            # backslash escapes inside string literals: MySQL always, PostgreSQL in E'..' strings
+            bs = c == 0x27 and (backend == 'mysql' or (backend == 'postgres' and i > 0 and s[i-1] == 0x45))
             while j < n:
-                if s[j] == 0x5c and c == 0x27 and backend == 'mysql': j += 2; continue
+                if s[j] == 0x5c and bs: j += 2; continue
                 if s[j] == c:
                     if j + 1 < n and s[j+1] == c: j += 2; continue
                     break
